@@ -489,3 +489,93 @@ func c17StartMode(p *load.Program, r *core.Report, appT *types.Named, start *ssa
 		})
 	}
 }
+
+// c17StopDuringStart: A11 — stop() is allowed while start() is still starting members (the state is
+// Running from the first moment); it tells the members that exist by then. The members started
+// afterwards have to be told by start() itself: on every path from a member spawn to a successful
+// return the state word is looked at again, and on the Stopping edge every member is sent an exit
+// (complete fan-out). Otherwise the application hangs in 'stopping' with live members and every
+// later stop request reports 'stopping is in progress'.
+func c17StopDuringStart(p *load.Program, r *core.Report, appT *types.Named, start *ssa.Function, stopping int64) {
+	rule := "C17.A11 stop-request-during-start-reaches-late-members"
+	r.Floor(rule, 1)
+	fn := fname(start)
+	key := "C17.A11|" + fn
+	inst := "after the members are started the state is checked again and, if a stop was requested meanwhile, every member is told to stop"
+	var spawns []ssa.Instruction
+	eachInstr(start, func(in ssa.Instruction) {
+		if _, ok := in.(*ssa.Call); ok && callsNamed(in, "spawn") {
+			spawns = append(spawns, in)
+		}
+	})
+	// state == Stopping tests
+	var tests []*ssa.BinOp
+	for _, op := range stateOps(p, appT, "state") {
+		if op.Fn != start || op.Kind != "load" || op.Result == nil {
+			continue
+		}
+		if refs := op.Result.Referrers(); refs != nil {
+			for _, rf := range *refs {
+				if b, ok := rf.(*ssa.BinOp); ok && (b.Op == token.EQL || b.Op == token.NEQ) {
+					if c, okc := constInt(b.Y); okc && c == stopping {
+						tests = append(tests, b)
+					}
+				}
+			}
+		}
+	}
+	if len(spawns) == 0 {
+		r.Unk(rule, key, fn, p.Pos(start.Pos()), inst, "no member spawn found")
+		return
+	}
+	if len(tests) == 0 {
+		r.Bad(rule, key, fn, p.Pos(spawns[0].Pos()), inst, "start() never looks at the state again: members started after a concurrent stop request are not told to stop — the application stays in 'stopping' for ever")
+		return
+	}
+	isTest := func(in ssa.Instruction) bool {
+		for _, t := range tests {
+			if in == ssa.Instruction(t) {
+				return true
+			}
+		}
+		return false
+	}
+	var pts []Point
+	for _, s := range spawns {
+		pts = append(pts, after(s))
+	}
+	if hit := reaches(pts, isTest, func(in ssa.Instruction) bool {
+		rt, ok := in.(*ssa.Return)
+		return ok && maybeNilResult(rt, 0)
+	}); hit != nil {
+		r.Bad(rule, key, fn, p.Pos(hit.Pos()), inst, "a successful return is reachable from a spawn without the check")
+		return
+	}
+	for _, t := range tests {
+		tr, fl, complete := boolEdges(t)
+		if !complete {
+			continue
+		}
+		on := tr
+		if t.Op == token.NEQ {
+			on = fl
+		}
+		fan := false
+		why := ""
+		for range walkAvoid(edgePoints(on), isReturn, func(in ssa.Instruction) bool {
+			done, w := memberFanout(in, "group", "SendExit", "Kill")
+			if w != "" {
+				why = w
+			}
+			return done != nil
+		}) {
+			fan = true
+		}
+		if fan {
+			r.OK(rule, key, fn, p.Pos(t.Pos()), inst, "state == Stopping leads to a complete fan-out of SendExit over the members")
+			return
+		}
+		_ = why
+	}
+	r.Bad(rule, key, fn, p.Pos(tests[0].Pos()), inst, "the Stopping edge does not send an exit to every member")
+}
